@@ -1,0 +1,22 @@
+//go:build verif
+// +build verif
+
+package astisub
+
+import "time"
+
+// VerifTTMLParseTime runs TTMLInDuration.UnmarshalText + duration() with the given frame and tick rate
+func VerifTTMLParseTime(i string, framerate, tickrate int) (time.Duration, error) {
+	var d TTMLInDuration
+	if err := d.UnmarshalText([]byte(i)); err != nil {
+		return 0, err
+	}
+	d.framerate = framerate
+	d.tickrate = tickrate
+	return d.duration(), nil
+}
+
+func VerifTTMLFormatTime(d time.Duration) string {
+	b, _ := TTMLOutDuration(d).MarshalText()
+	return string(b)
+}
